@@ -206,6 +206,11 @@ def gen_case(rng, malformed):
         run["walltime"] = rng.choice([
             "00:10:00", "01:30:00", "00:00:30", "02:59:59", "12:00", "00:45", "1:2:3",
             "00:10:01", "30", 30, 0, 90, "10:00:60", "00:59:30.5", "23:59:60"])
+    if "walltime" in run and rng.random() < 0.3:
+        # any time of day, not only the round ones: minutes that are about to carry, seconds that round up
+        run["walltime"] = "%02d:%02d:%02d" % (rng.choice([0, 0, 1, 1, 2, 9, 11, 23, 47, 99, 100]),
+                                              rng.choice([0, 1, 29, 58, 59, 59, 59]),
+                                              rng.choice([0, 0, 1, 30, 59]))
     if adapter == "flux" and run.get("walltime") == "00:59:30.5":
         run["walltime"] = "00:59:30"      # float repr of fractional seconds is outside the model
     if adapter == "flux" and "walltime" in run and rng.random() < 0.12:
